@@ -164,7 +164,15 @@ func (n *Net) NewStream(ctx context.Context, desc *grpc.StreamDesc, method strin
 	if md == nil {
 		md = metadata.MD{}
 	}
-	sctx, scancel := context.WithCancel(metadata.NewIncomingContext(base, md))
+	// like grpc (grpc-timeout header), the deadline of the client's context becomes a deadline
+	// of the server-side stream context
+	var sctx context.Context
+	var scancel context.CancelFunc
+	if dl, ok := ctx.Deadline(); ok {
+		sctx, scancel = context.WithDeadline(metadata.NewIncomingContext(base, md), dl)
+	} else {
+		sctx, scancel = context.WithCancel(metadata.NewIncomingContext(base, md))
+	}
 	_, negReq := md["grpctunnel-negotiate"]
 	ms := &MStream{negReq: negReq, net: n, ID: id, Name: fmt.Sprintf("%s%d", n.Label, id), Method: method,
 		cctx: cctx, ccancel: ccancel, sctx: sctx, scancel: scancel}
@@ -464,8 +472,8 @@ func (s *mServerStream) SendMsg(m any) error {
 	if s.sErr != nil {
 		return s.sErr
 	}
-	if s.sctx.Err() != nil {
-		return status.Error(codes.Canceled, "context canceled")
+	if err := s.sctx.Err(); err != nil {
+		return status.FromContextError(err).Err()
 	}
 	s.sendHeaderLocked()
 	if s.cErr != nil || s.cctx.Err() != nil {
@@ -489,8 +497,8 @@ func (s *mServerStream) RecvMsg(m any) error {
 	if s.sErr != nil {
 		return s.sErr
 	}
-	if s.sctx.Err() != nil {
-		return status.Error(codes.Canceled, "context canceled")
+	if err := s.sctx.Err(); err != nil {
+		return status.FromContextError(err).Err()
 	}
 	if len(s.c2s) > 0 {
 		b := s.c2s[0]
